@@ -1058,8 +1058,9 @@ theorem sideLe_antisymm_price {s : Side} {a b : Level} (h1 : s.le a b = true) (h
     a.price = b.price := by
   cases s <;> simp [Side.le, Side.before] at * <;> grind
 
-/-- `sort_unstable_by` price on input with pairwise distinct prices: every permutation in weak
-book order is the model's stable sort (the instability cannot show). -/
+/-- sorting by price on input with pairwise distinct prices: every permutation in weak book order
+is the model's sort (no choice is left to the algorithm; for inputs with repeated prices see
+`sortLevels_stable`). -/
 theorem sortLevels_unique_of_nodup {s : Side} {ls l' : List Level} (hn : (ls.map Level.price).Nodup)
     (hp : l'.Perm ls) (hs : WSorted s l') : l' = sortLevels s ls := by
   refine List.Perm.eq_of_pairwise ?_ hs (wsorted_sortLevels s ls) (hp.trans (sortLevels_perm s ls).symm)
@@ -1143,5 +1144,187 @@ theorem new_eval {seq : Nat} {te : Option Int} {bids asks bids' asks' : List Lev
     (hb : sortLevels .bids bids = bids') (ha : sortLevels .asks asks = asks') :
     TBook.new seq te bids asks = ⟨seq, te, bids', asks'⟩ := by
   simp only [TBook.new, hb, ha]
+
+
+/-! # Additions after the review of the sub-check theorems (`audit/sub/report_A.md`, C05M) -/
+
+/-! ## the division by zero of the volume-weighted mid-price -/
+
+theorem vwMidPanics_iff (b : TBook) :
+    b.vwMidPanics = true ↔
+      ∃ bb ba, b.bids.head? = some bb ∧ b.asks.head? = some ba ∧ bb.amount + ba.amount = 0 := by
+  unfold TBook.vwMidPanics
+  cases hb : b.bids.head? <;> cases ha : b.asks.head? <;> simp
+
+theorem vwMidPanics_false_of_pos {b : TBook} (hb : ∀ l ∈ b.bids, 0 < l.amount)
+    (ha : ∀ l ∈ b.asks, 0 < l.amount) : b.vwMidPanics = false := by
+  cases h : b.vwMidPanics with
+  | false => rfl
+  | true =>
+    obtain ⟨bb, ba, h1, h2, h3⟩ := (vwMidPanics_iff b).mp h
+    have := hb bb (List.mem_of_mem_head? h1)
+    have := ha ba (List.mem_of_mem_head? h2)
+    grind
+
+/-- where the call does not panic and both sides are non-empty, the result is the quotient with a
+non-zero divisor: stated division-free -/
+theorem vwMid_value {b : TBook} {bb ba : Level} (hb : b.bids.head? = some bb) (ha : b.asks.head? = some ba)
+    (hn : b.vwMidPanics = false) :
+    bb.amount + ba.amount ≠ 0 ∧
+    ∃ v, b.volumeWeightedMidPrice = some v ∧
+      v * (bb.amount + ba.amount) = bb.price * ba.amount + ba.price * bb.amount := by
+  have hne : bb.amount + ba.amount ≠ 0 := by
+    intro h0
+    have : b.vwMidPanics = true := (vwMidPanics_iff b).mpr ⟨bb, ba, hb, ha, h0⟩
+    rw [hn] at this; cases this
+  refine ⟨hne, _, ?_, Rat.div_mul_cancel hne⟩
+  simp [TBook.volumeWeightedMidPrice, OrderBook.volumeWeightedMidPrice, TBook.toCore, hb, ha,
+    Book.volumeWeightedMidPrice]
+
+/-- model-side and spec-side guard agree on a clean cell -/
+theorem Refines.vwMidPanics_eq {b : TBook} {sp : Spec} (h : Refines b.toCore sp) :
+    b.vwMidPanics = vwMidUndefined sp := by
+  have hb : b.bids = sp.bids.levels .bids := h.bids_eq
+  have ha : b.asks = sp.asks.levels .asks := h.asks_eq
+  simp only [TBook.vwMidPanics, vwMidUndefined, PMap.best_eq_head h.wfBids, PMap.best_eq_head h.wfAsks,
+    ← hb, ← ha]
+
+theorem Refines.vwMidChecked_eq {b : TBook} {sp : Spec} (h : Refines b.toCore sp) :
+    b.vwMidChecked = vwMidCheckedSpec sp := by
+  simp only [TBook.vwMidChecked, vwMidCheckedSpec, Refines.vwMidPanics_eq h, TBook.volumeWeightedMidPrice,
+    h.vwMidPrice_eq]
+
+/-! ## the constructors' sort is stable -/
+
+theorem sortLevels_stable (s : Side) (ls : List Level) (p : Rat) :
+    (sortLevels s ls).filter (fun l => l.price == p) = ls.filter (fun l => l.price == p) := by
+  have hpw : (ls.filter (fun l => l.price == p)).Pairwise (fun a b => s.le a b = true) := by
+    apply List.pairwise_of_forall_mem_list
+    intro a ha b hb
+    have h1 := (List.mem_filter.mp ha).2
+    have h2 := (List.mem_filter.mp hb).2
+    simp only [beq_iff_eq] at h1 h2
+    simp [Side.le, h1, h2, Side.before_irrefl]
+  have hsub := List.sublist_mergeSort (le := s.le) (xs := ls) (Side.le_trans' s) (Side.le_total' s) hpw
+    List.filter_sublist
+  have h2 := hsub.filter (fun l => l.price == p)
+  rw [List.filter_filter] at h2
+  simp only [Bool.and_self] at h2
+  refine (h2.eq_of_length ?_).symm
+  rw [← List.countP_eq_length_filter, ← List.countP_eq_length_filter]
+  exact ((sortLevels_perm s ls).countP_eq _).symm
+
+/-! ## the association log (map specification) -/
+
+theorem AssocLog.find_eq_lookup_reverse (log : AssocLog) (k : Nat) :
+    AssocLog.find log k = log.reverse.lookup k := by
+  induction log with
+  | nil => rfl
+  | cons x rest ih =>
+    obtain ⟨k0, c⟩ := x
+    simp only [AssocLog.find, List.reverse_cons, List.lookup_append, ih]
+    congr 1
+    by_cases hk : k0 = k
+    · subst hk; simp [List.lookup]
+    · have : (k == k0) = false := by simpa using fun e => hk e.symm
+      simp [List.lookup, hk, this]
+
+theorem AssocLog.find_append_single (log : AssocLog) (k c k' : Nat) :
+    AssocLog.find (log ++ [(k, c)]) k' = if k' = k then some c else AssocLog.find log k' := by
+  rw [AssocLog.find_eq_lookup_reverse, AssocLog.find_eq_lookup_reverse]
+  simp only [List.reverse_append, List.reverse_cons, List.reverse_nil, List.nil_append, List.singleton_append,
+    List.lookup_cons]
+  by_cases hk : k' = k
+  · simp [hk]
+  · have : (k' == k) = false := by simpa using hk
+    simp [hk, this]
+
+theorem AssocLog.mem_keys (log : AssocLog) : ∀ k, k ∈ AssocLog.keys log ↔ k ∈ log.map (·.1) := by
+  induction log with
+  | nil => simp [AssocLog.keys]
+  | cons x rest ih =>
+    obtain ⟨k0, c⟩ := x
+    intro k
+    simp only [AssocLog.keys, List.map_cons, List.mem_cons]
+    split
+    · rename_i hc
+      have hm : k0 ∈ rest.map (·.1) := (ih k0).mp (by simpa using hc)
+      rw [ih k]
+      constructor
+      · exact Or.inr
+      · rintro (rfl | h)
+        · exact hm
+        · exact h
+    · simp [ih k]
+
+theorem AssocLog.keys_nodup (log : AssocLog) : (AssocLog.keys log).Nodup := by
+  induction log with
+  | nil => simp [AssocLog.keys]
+  | cons x rest ih =>
+    obtain ⟨k0, c⟩ := x
+    simp only [AssocLog.keys]
+    split
+    · exact ih
+    · rename_i hc
+      exact List.nodup_cons.mpr ⟨by simpa using hc, ih⟩
+
+theorem AssocLog.find_isSome_iff (log : AssocLog) (k : Nat) :
+    (AssocLog.find log k).isSome ↔ k ∈ log.map (·.1) := by
+  induction log with
+  | nil => simp [AssocLog.find]
+  | cons x rest ih =>
+    obtain ⟨k0, c⟩ := x
+    simp only [AssocLog.find, List.map_cons, List.mem_cons, Option.isSome_or, Bool.or_eq_true, ih]
+    by_cases hk : k0 = k
+    · simp [hk]
+    · have : ¬ k = k0 := fun e => hk e.symm
+      simp [hk, this]
+
+theorem AssocLog.mem_keys_iff_find (log : AssocLog) (k : Nat) :
+    k ∈ AssocLog.keys log ↔ (AssocLog.find log k).isSome := by
+  rw [AssocLog.mem_keys, AssocLog.find_isSome_iff]
+
+theorem BookMap.mem_keys_iff_find (m : BookMap) (k : Nat) : k ∈ m.keys ↔ (m.find k).isSome := by
+  cases m with
+  | single k0 c =>
+    simp only [BookMap.keys, BookMap.find, List.mem_singleton]
+    by_cases h : k0 = k
+    · simp [h]
+    · have h' : ¬ k = k0 := fun e => h e.symm
+      simp [h, h']
+  | multi books => exact (lookup_isSome_iff_mem_keys books k).symm
+
+theorem mapRefines_single (k c : Nat) : MapRefines (.single k c) [(k, c)] := by
+  intro k'
+  simp [BookMap.find, AssocLog.find]
+
+theorem mapRefines_multiOf (pairs : List (Nat × Nat)) : MapRefines (multiOf pairs) pairs := by
+  intro k
+  rw [AssocLog.find_eq_lookup_reverse]
+  simp only [multiOf, BookMap.find, foldl_hashInsert_lookup]
+  cases pairs.reverse.lookup k <;> rfl
+
+theorem mapRefines_insert {books : List (Nat × Nat)} {log : AssocLog} (h : MapRefines (.multi books) log)
+    (k c : Nat) : MapRefines ((BookMap.multi books).insert k c) (log ++ [(k, c)]) := by
+  intro k'
+  rw [AssocLog.find_append_single, ← h k']
+  exact lookup_hashInsert books k c k'
+
+theorem MapRefines.keys_perm {m : BookMap} {log : AssocLog} (h : MapRefines m log) (hn : m.keys.Nodup) :
+    m.keys.Perm (AssocLog.keys log) := by
+  rw [List.perm_ext_iff_of_nodup hn (AssocLog.keys_nodup log)]
+  intro k
+  rw [BookMap.mem_keys_iff_find, AssocLog.mem_keys_iff_find, h k]
+
+theorem eventsForCell_eq_by (m : BookMap) (c : Nat) (stream : List TStreamEvent) :
+    eventsForCell m c stream = eventsForCellBy m.find c stream := rfl
+
+theorem specRun_eq_specRunBy (m : BookMap) (cells : List SCell) (stream : List TStreamEvent) :
+    specRun m cells stream = specRunBy m.find cells stream := rfl
+
+theorem MapRefines.specRun_eq {m : BookMap} {log : AssocLog} (h : MapRefines m log) (cells : List SCell)
+    (stream : List TStreamEvent) : specRun m cells stream = specRunBy (AssocLog.find log) cells stream := by
+  have : m.find = AssocLog.find log := funext h
+  rw [specRun_eq_specRunBy, this]
 
 end BarterModel.BookManager
